@@ -82,5 +82,23 @@ func c14Directed(rng *RNG) []Case {
 			cases = append(cases, Case{Tag: "directed", Lines: lines})
 		}
 	}
+	// F42: a child manifest re-pushed under an opaque media type BEFORE any tag leads to it (allowed), then tagged
+	// through an index that lists it as an image: its layers must stay (the statement: everything a tagged manifest
+	// transitively references remains retrievable), but the reachability walk follows the stored media type only
+	{
+		m1, i1 := byName["m1"], byName["i1"]
+		lines := []string{"mem init 1"}
+		lines = append(lines, pushBlobs("a")...)
+		lines = append(lines, linePushManifest("a", "", m1.data, m1.mt), linePushManifest("a", "", m1.data, mtOpaque), linePushManifest("a", "v1", i1.data, i1.mt))
+		n0 := len(lines)
+		for _, bi := range []int{1, 2, 4} { // m1's layers and config
+			lines = append(lines, fmt.Sprintf("mem deleteblob %s %s", tok("a"), tok(sha256Digest(u.blobs[bi]))))
+		}
+		for _, bi := range []int{1, 2, 4} {
+			lines = append(lines, fmt.Sprintf("mem getblob %s %s", tok("a"), tok(sha256Digest(u.blobs[bi]))))
+		}
+		lines = append(lines, fmt.Sprintf("mem gettag %s %s", tok("a"), tok("v1")))
+		cases = append(cases, Case{Tag: fmt.Sprintf("directed:retype-before-tag:%d", n0), Lines: lines})
+	}
 	return cases
 }
